@@ -57,3 +57,15 @@ def bounded_monitor(prop, seed):
     doc["exit"] = code
     doc["bounded"] = True
     return doc
+
+
+def assumed_contract_monitor():
+    """bounded cross-check of the assumed dependency contracts against the real interpreter (never counted as proof)"""
+    code, out = run_native("replay/assumed_contracts.py", timeout=600, full=True)
+    try:
+        doc = json.loads(out[out.index("{"): out.rindex("}") + 1])
+        doc["clauses"] = [{"name": c["name"], "evaluations": c["evaluations"], "failures": c["failures"]} for c in doc["clauses"]]
+    except Exception:
+        doc = {"output": out[-800:]}
+    doc["exit"] = code
+    return doc
